@@ -423,6 +423,94 @@ async fn c13_concurrent(seed: u64, round: u64, tcp: bool) -> CaseOut {
     out
 }
 
+/// Two threads change the registration of DIFFERENT services at the same instant (released together by
+/// a spin flag); afterwards, with both calls returned, every service must be in the state its own
+/// thread left it in (one change must not undo or lose another) and the untouched service must be served.
+async fn c13_two_writers(seed: u64, round: u64) -> CaseOut {
+    let mut out = CaseOut::default();
+    let mut rng = rng_for(seed, 0xC13_2222, round);
+    let addr = SocketAddr::from(([10, 123, (round >> 8) as u8, round as u8], 7100 + (round >> 16) as u16));
+    let server = Arc::new(Server::verif_in_memory(addr));
+    server.add_service(SvcA);
+    // thread one owns B (and C), thread two owns D (and "Counter"); initial registrations at random
+    let (b0, c0, d0, k0) = (rng.gen_bool(0.5), rng.gen_bool(0.5), rng.gen_bool(0.5), rng.gen_bool(0.5));
+    if b0 {
+        server.add_service(SvcB);
+    }
+    if c0 {
+        server.add_service(SvcC);
+    }
+    if d0 {
+        server.add_service(SvcD);
+    }
+    if k0 {
+        server.add_service(SvcCounter);
+    }
+    // action codes as in c13_apply: 2/3 = add/remove B, 4/5 = C, 6/7 = D, 26/27 = Counter
+    let acts1: Vec<u8> = (0..rng.gen_range(1..=3)).map(|_| *[2u8, 3, 4, 5].choose(&mut rng).unwrap()).collect();
+    let acts2: Vec<u8> = (0..rng.gen_range(1..=3)).map(|_| *[6u8, 7, 26, 27].choose(&mut rng).unwrap()).collect();
+    let ready = Arc::new(AtomicU64::new(0));
+    let go = Arc::new(std::sync::atomic::AtomicBool::new(false));
+    let spawn = |acts: Vec<u8>| {
+        let (server, ready, go) = (server.clone(), ready.clone(), go.clone());
+        tokio::task::spawn_blocking(move || {
+            ready.fetch_add(1, Ordering::SeqCst);
+            while !go.load(Ordering::Acquire) {
+                std::hint::spin_loop();
+            }
+            for a in acts {
+                c13_apply(&server, a);
+            }
+        })
+    };
+    let (t1, t2) = (spawn(acts1.clone()), spawn(acts2.clone()));
+    let t0 = std::time::Instant::now();
+    while ready.load(Ordering::SeqCst) < 2 && t0.elapsed() < Duration::from_secs(10) {
+        tokio::task::yield_now().await;
+    }
+    go.store(true, Ordering::Release);
+    let (_, _) = (t1.await, t2.await);
+    // model: services are disjoint between the threads, so each one's final state is what its own thread did last
+    let last = |init: bool, acts: &[u8], add: u8| acts.iter().rev().find(|a| **a == add || **a == add + 1).map(|a| *a == add).unwrap_or(init);
+    let mut handlers: BTreeMap<&'static str, u32> = BTreeMap::new();
+    handlers.insert("A/M1", 1);
+    if last(b0, &acts1, 2) {
+        handlers.insert("B/M1", 2);
+    }
+    if last(c0, &acts1, 4) {
+        handlers.insert("C/M1", 3);
+        handlers.insert("C/M2", 3);
+    }
+    if last(d0, &acts2, 6) {
+        handlers.insert("D/M2", 4);
+    }
+    if last(k0, &acts2, 26) {
+        handlers.insert("Counter/M1", 14);
+    }
+    let channel = Channel::connect(addr);
+    let got = c13_probe(&channel, 5).await;
+    let want = c13_expect(&handlers, 5);
+    out.count("rounds_with_two_threads_changing_different_services_at_once", 1);
+    out.count("probe_calls", got.len() as u64);
+    if got != want {
+        let (label, g, w) = got.iter().zip(want.iter()).find(|(g, w)| g != w).map(|(g, w)| (g.0, g.1.clone(), w.1.clone())).unwrap();
+        let what = match (&g, &w) {
+            (Ok(_), Err(_)) => "removed-or-never-added-service-still-served",
+            (Err(_), Ok(_)) => "registered-service-refused",
+            _ => "request-dispatched-to-wrong-service",
+        };
+        out.violate(
+            format!("C13:{what}:after-two-threads-changed-different-services-at-once"),
+            json!({"initially_registered": {"B": b0, "C": c0, "D": d0, "Counter": k0}, "thread_one": acts1.iter().map(|a| action_name(*a)).collect::<Vec<_>>(),
+                "thread_two": acts2.iter().map(|a| action_name(*a)).collect::<Vec<_>>(), "pair": label, "got": format!("{g:?}"), "expected": format!("{w:?}")}),
+        );
+        out.replay = Some(json!({"mode": "two-writers", "seed": seed, "round": round, "note": "parallel interleavings are sampled; replay re-runs the same round parameters"}));
+    }
+    out.nontrivial = Some(hash_of(&("two-writers", &acts1, &acts2, b0, c0, d0, k0)));
+    datacake_rpc::verif::unregister(addr);
+    out
+}
+
 pub fn free_tcp_addr() -> SocketAddr {
     let l = std::net::TcpListener::bind("127.0.0.1:0").unwrap();
     l.local_addr().unwrap()
@@ -432,10 +520,26 @@ pub fn c13(args: &Args) {
     let mut report = Report::new(
         args,
         "E3-registry",
-        "services A,B (message M1), C (M1,M2), D (M2) and two instantiations Gen<Alpha>, Gen<Beta> of one generic service (M1; names differing only inside <...>) on one real Server: every history of <= 5 actions out of {add X, remove X} over A-D (8 actions incl. double add, double remove, remove-unknown; 37 448 histories) over {A, Gen<Alpha>, Gen<Beta>} (6 actions; 9 330 histories) and over {A, P1, P2, P3} where P1 (M1), P2 (M2), P3 (M1,M2) are three service TYPES registered under ONE service name (7 actions; 19 607 histories; the model keeps handlers per name: adds accumulate, a later add of the same message replaces the handler, removing the name removes them all) executed on the in-memory transport (same ServerState / handler dispatch code as TCP), and over four services whose short names are collision pairs of weak string hashes ('Aa'/'BB' under h*31+c, 'ab'/'ba' under order-insensitive sums; 8 actions, 37 448 histories) executed likewise, and over four services whose names are related as strings ('Counter' a strict prefix of 'CounterV2', 'unter' a suffix of 'Counter', 'counter' differing in case only; 8 actions, 37 448 histories); after EVERY step all 17 (service name,message) pairs are called through real RpcClients: Ok with that service's tag iff the service is in the registered-names model, else ServiceUnavailable. A seeded sample of histories is repeated on a real loopback TCP server. Concurrency: on a multi-thread runtime three clients keep calling a service that stays registered while another thread adds and removes two other services (one of them slow to drop) 80..480 times: no request may be refused or misrouted. Non-trivial = history contains a removal; distinct = distinct histories.",
+        "services A,B (message M1), C (M1,M2), D (M2) and two instantiations Gen<Alpha>, Gen<Beta> of one generic service (M1; names differing only inside <...>) on one real Server: every history of <= 5 actions out of {add X, remove X} over A-D (8 actions incl. double add, double remove, remove-unknown; 37 448 histories) over {A, Gen<Alpha>, Gen<Beta>} (6 actions; 9 330 histories) and over {A, P1, P2, P3} where P1 (M1), P2 (M2), P3 (M1,M2) are three service TYPES registered under ONE service name (7 actions; 19 607 histories; the model keeps handlers per name: adds accumulate, a later add of the same message replaces the handler, removing the name removes them all) executed on the in-memory transport (same ServerState / handler dispatch code as TCP), and over four services whose short names are collision pairs of weak string hashes ('Aa'/'BB' under h*31+c, 'ab'/'ba' under order-insensitive sums; 8 actions, 37 448 histories) executed likewise, and over four services whose names are related as strings ('Counter' a strict prefix of 'CounterV2', 'unter' a suffix of 'Counter', 'counter' differing in case only; 8 actions, 37 448 histories); after EVERY step all 17 (service name,message) pairs are called through real RpcClients: Ok with that service's tag iff the service is in the registered-names model, else ServiceUnavailable. A seeded sample of histories is repeated on a real loopback TCP server. Concurrency: on a multi-thread runtime three clients keep calling a service that stays registered while another thread adds and removes two other services (one of them slow to drop) 80..480 times: no request may be refused or misrouted; and 6 000 rounds in which two threads, released together by a spin flag, change the registration of DIFFERENT services (1-3 add/remove actions each) - afterwards every service must be in the state its own thread left it in. Non-trivial = history contains a removal; distinct = distinct histories.",
     );
     if let Some(path) = &args.replay {
         let r = read_replay(path);
+        if r["mode"] == "two-writers" || r["mode"] == "concurrent" {
+            // parallel interleavings are sampled: the round is run again 500 times with the same parameters
+            let (sd, rd, two) = (r["seed"].as_u64().unwrap_or(1), r["round"].as_u64().unwrap_or(0), r["mode"] == "two-writers");
+            let outs = block_on_real(4, async move {
+                let mut outs = Vec::new();
+                for _ in 0..(if two { 500 } else { 5 }) {
+                    outs.push(if two { c13_two_writers(sd, rd).await } else { c13_concurrent(sd, rd, false).await });
+                }
+                outs
+            });
+            for o in outs {
+                report.absorb(o);
+            }
+            report.finish(args);
+            return;
+        }
         let hist: Vec<u8> = r["hist"].as_array().unwrap().iter().map(|v| v.as_u64().unwrap() as u8).collect();
         let out = block_on_paused(async {
             let addr = SocketAddr::from(([10, 13, 0, 1], 9));
@@ -611,6 +715,19 @@ pub fn c13(args: &Args) {
     for o in conc {
         report.absorb(o);
     }
+    // two threads changing different services at the same instant
+    let n_two = args.pick(6_000, 200_000);
+    let two = block_on_real(4, async move {
+        let mut outs = Vec::new();
+        for r in 0..n_two {
+            outs.push(c13_two_writers(seed, r).await);
+        }
+        outs
+    });
+    for o in two {
+        report.absorb(o);
+    }
+    report.floor("rounds_with_two_threads_changing_different_services_at_once", 3_000);
     report.floor("requests_during_registry_changes", 5_000);
     report.floor("registry_changes_under_load", 1_000);
     report.floor("probe_calls", 100_000);
@@ -858,6 +975,12 @@ pub struct ByteWord {
     pub w: u16,
 }
 
+/// A message without any field: its archived form is zero-sized, its valid frame is the four-byte
+/// checksum trailer alone.
+#[derive(Serialize, Deserialize, Archive, PartialEq, Debug, Clone)]
+#[archive(check_bytes)]
+pub struct Nothing;
+
 pub struct SmallSvc {
     seen: Arc<Mutex<Vec<String>>>,
 }
@@ -869,6 +992,7 @@ impl RpcService for SmallSvc {
         r.add_handler::<Rgb>();
         r.add_handler::<OptByte>();
         r.add_handler::<ByteWord>();
+        r.add_handler::<Nothing>();
     }
 }
 
@@ -890,6 +1014,7 @@ small_echo!(Flag);
 small_echo!(Rgb);
 small_echo!(OptByte);
 small_echo!(ByteWord);
+small_echo!(Nothing);
 
 /// Round trips of small scalar messages over real loopback HTTP/2 and through DataView directly.
 async fn c12_small_messages(seed: u64, report: &mut Report) {
@@ -943,6 +1068,9 @@ async fn c12_small_messages(seed: u64, report: &mut Report) {
     }
     for w in [0u16, 1, 255, 256, 0xABCD, u16::MAX] {
         trip!(Tiny(w), Tiny);
+    }
+    for _ in 0..4 {
+        trip!(Nothing, Nothing);
     }
     for _ in 0..60 {
         trip!(Tiny(rng.gen()), Tiny);
